@@ -482,7 +482,7 @@ SWEEP_KINDS = ["dict", "dict", "file_array", "file_array", "mix", "mix", "shared
 
 def generate(rng, tier, mult):
     thorough = tier != "quick"
-    n_req = (60 if not thorough else 360) * mult
+    n_req = (50 if not thorough else 360) * mult
     k_random = 4 if not thorough else 10
     cases = []
     for _ in range(n_req):
@@ -502,14 +502,15 @@ def generate(rng, tier, mult):
 
         runs = []
         # controlled executor: every completion order of one generation at a time
-        kind0 = rng.choice(SWEEP_KINDS)
+        sweep_kinds = SWEEP_KINDS if thorough else SWEEP_KINDS[:-1]   # quick: no all-shared-memory sweep (slow)
+        kind0 = rng.choice(sweep_kinds)
         for g, n in enumerate(sizes):
             for perm in _perms(rng, n, k_random):
                 if perm == list(range(n)) and g > 0:
                     continue
                 pis = _random_pis(rng, sizes) if thorough else [list(range(m)) for m in sizes]
                 pis[g] = perm
-                runs.append(run(pis, kind0 if rng.random() < 0.7 else rng.choice(SWEEP_KINDS), "ctl",
+                runs.append(run(pis, kind0 if rng.random() < 0.7 else rng.choice(sweep_kinds), "ctl",
                                 "map" if rng.random() < 0.75 else "async"))
         # every storage with all generations permuted, both entry points
         for st in KINDS:
